@@ -25,8 +25,10 @@ META = {
                   'request makes — assignments made by the body of write_<p> before it raises included — are part of the sequential '
                   'history, and the connection that sent the request knows the cache like any other listener); '
                   'tolerant_compare_drifts / tolerant_compare_breaks (a comparison with a tolerance lets a drift walk the cache away '
-                  'without a message: exactness is necessary); replay_eq_cache_canonical (exactness of != is needed on canonical values '
-                  'only — tested on every case).  The models are tied to modulebase.announceUpdate, the '
+                  'without a message: exactness is necessary); replay_eq_cache_canonical, activation_coherent_canonical, '
+                  'conc_ok_activation_canonical, cache_canonical (only results of the datatype ever reach the cache or the comparison — an '
+                  'invariant of the small-step system —, so exactness of != is needed on canonical values only; that law and the '
+                  'hypotheses "initial values and validate=False arguments are canonical" are tested on every case).  The models are tied to modulebase.announceUpdate, the '
                   'read/write wrappers, Parameter.__set__/finish and dispatcher.make_update/broadcast_event/handle_request/handle_activate by a '
                   'correspondence run (sequential histories with activations of several connections + labelled scheduled runs) and generated '
                   'source facts (callbacks_all_caught, activate_shape, funnel_shape: the comparison and the early returns of announceUpdate, '
@@ -34,17 +36,17 @@ META = {
                   'histories contain change / read / do requests of listening and other connections, driver methods that assign the '
                   'parameter themselves (observed after every call of the funnel), and values closer to each other than the resolution '
                   'of their datatype (drifts); the Lean monitors judge every implementation trace from the activation of each connection on.',
-    'level_note': 'Trusted: Lean kernel + axioms propext/Quot.sound; hypothesis ExportExact (values Python\'s != does not tell apart '
-                  'have the same exported form) is re-tested on every sampled pair; callbacks re-entering the SAME parameter, callback trees deeper than one follower level, callbacks raising '
+    'level_note': 'Trusted: Lean kernel + axioms propext/Quot.sound; hypothesis CanonExact (canonical values Python\'s != does not tell apart '
+                  'have the same exported form) is tested on every case; callbacks re-entering the SAME parameter, callback trees deeper than one follower level, callbacks raising '
                   'BaseException, callbacks inside the small-step (concurrent) system, change requests with partial structs '
                   '(validate with previous=cache) and DEactivation / disconnection (C08) are not modelled; the small-step system has one module (the per-module update locks of a general activation are '
                   'taken one after the other; only one is modelled); CPython executes a single '
                   'attribute store / list append atomically; atomicity is proved for the model\'s lock structure and validated against '
                   'the code by scheduled runs whose label sequence the model must follow.',
     'trusted': [
-        'ExportExact (concurrent theorems): two values of one exported datatype for which `a != b` is false have the same exported form; '
-        'false for raw values of some pools (-0.0/0.0, 1/True); the sequential core needs it on canonical values only '
-        '(replay_eq_cache_canonical) and that restricted law is tested on every case (a breach is reported as a disagreement)',
+        'CanonExact: two CANONICAL values (results of the datatype) of one exported datatype for which `a != b` is false have the same '
+        'exported form — tested on every case (a breach is reported as a disagreement); the unrestricted law ExportExact, under which '
+        'the other theorems are stated, is false for raw values of some pools (-0.0/0.0, 1/True): use the _canonical versions',
         'vlib.sched yields before every lock/send primitive; one bytecode-level attribute store is atomic (GIL)',
         'an element of the error carrier stands for what SECoPError.__eq__ compares; the harness identifies it by (name, text)',
         'the test connections hash by their number, so the set iteration order in broadcast_event is ascending (configuration of the run)',
